@@ -15,10 +15,12 @@
                                   stream event (data, FIN, reset, hook completion) is addressed to the client stream or
                                   the server stream of the one layer registered under the event's id
   * stream_commands_address_registered_streams   (all events, incl. the connection-close fan-out)
+  * no_data_or_reset_after_fin_or_reset   whole history: nothing is sent on a (connection, stream id) after its FIN / reset
   * pairing_is_stable_forever, signals_reach_only_pair_forever, history_addresses_registered_streams
                                   the same, lifted to whole histories (induction over the event list)
 -/
 import MitmVerif.Lemmas.C30
+import MitmVerif.Lemmas.C30Fin
 namespace MitmVerif.Props.C30
 open MitmVerif MitmVerif.C30 MitmVerif.C30.Lemmas
 
@@ -265,7 +267,41 @@ theorem history_addresses_registered_streams (ins : List QIn) :
       · exact ih _ hstep.1 o ho tc id' ht
   exact gen ins _ (init_inv ops)
 
-/-! ### the write guard of `event_to_child` (step-local; the whole-history form is not proved, see level_note) -/
+/-! ### no data or reset after a FIN / reset, over the whole history -/
+
+private theorem hist_run (m : Mux σ) (hist : List QOut) (h : MuxInv m) (hH : Hist m.streams hist) (ins : List QIn) :
+    Hist (run ops m ins).1.streams (hist ++ (run ops m ins).2) := by
+  induction ins generalizing m hist with
+  | nil => simpa [run] using hH
+  | cons i t ih =>
+    rw [run_cons]
+    have := ih (step ops m i).1 (hist ++ (step ops m i).2) (step_spec ops m i h).1 (step_hist ops m i hist h hH)
+    simpa [List.append_assoc] using this
+
+/-- **Nothing follows a FIN or a reset.**  Take the complete list of commands the layer has yielded over ANY event
+    sequence (any interleaving of stream opens, data, FINs, resets, hook completions and connection closes, any
+    behaviour of the child layers).  Once it contains a `SendQuicStreamData(..., end_stream=True)` or a
+    `ResetQuicStream` addressed to a (connection, stream id), no later command in the list is a `SendQuicStreamData`
+    or `ResetQuicStream` addressed to that same (connection, stream id). -/
+theorem no_data_or_reset_after_fin_or_reset (ins : List QIn) (pre post : List QOut) (o : QOut)
+    (toClient : Bool) (id : Nat)
+    (hsplit : (run ops (Mux.init ops) ins).2 = pre ++ o :: post)
+    (hfin : (∃ d, o = .data toClient id d true) ∨ (∃ code, o = .reset toClient id code)) :
+    ∀ x ∈ post, (∀ d fin, x ≠ .data toClient id d fin) ∧ (∀ code, x ≠ .reset toClient id code) := by
+  have hH := hist_run ops (Mux.init ops) [] (init_inv ops) (by simpa [Mux.init] using (hist_nil (σ := σ))) ins
+  have hs := hH.g2 (toClient, id)
+  rw [List.nil_append, hsplit, scanT_append] at hs
+  have hfo : finAt (toClient, id) o = true := by
+    rcases hfin with ⟨d, rfl⟩ | ⟨code, rfl⟩ <;> simp [finAt, finOn, target]
+  simp only [scanT, hfo, Bool.or_true, Bool.and_eq_true] at hs
+  have hall := scanT_true_all _ _ hs.2.2
+  intro x hx
+  have hx' := hall x hx
+  refine ⟨?_, ?_⟩
+  · intro d fin e; subst e; simp [sendAt, sendOn, target] at hx'
+  · intro code e; subst e; simp [sendAt, sendOn, target] at hx'
+
+/-! ### the write guard of `event_to_child` (the step-local facts behind the theorem above) -/
 
 /-- data for a side of a stream whose sending direction mitmproxy has already closed is dropped, not sent -/
 theorem no_data_to_unwritable_side (rec : TS σ → List C29.Output → TS σ) (ts : TS σ) (to : C29.Side) (d : Bytes)
@@ -312,5 +348,13 @@ example : (step relayOps (run relayOps (Mux.init relayOps) demo).1 (.streamReset
 /-- an unknown id of the wrong initiator is rejected (the model is not constant) -/
 example : (step relayOps (run relayOps (Mux.init relayOps) demo).1 (.streamData true 9 [1] false)).2 = [.fault] := by
   decide
+
+/-- hypothesis of `no_data_or_reset_after_fin_or_reset` on a concrete history: a FIN towards server stream 0 has been
+    sent (the client finished its stream); data still flows the other way, but nothing more goes to (server, 0) -/
+example : ((run relayOps (Mux.init relayOps)
+    [.start, .streamData true 0 [1] true, .hookDone (some 0) none, .hookDone (some 0) none,
+     .streamData false 0 [2] false, .hookDone (some 0) none, .streamData true 0 [3] false]).2.filter
+      fun o => match o with | .data .. => true | .reset .. => true | _ => false) =
+    [.data false 0 [1] false, .data false 0 [] true, .data true 0 [2] false] := by decide
 
 end MitmVerif.Props.C30
